@@ -185,6 +185,17 @@ def run(ctx):
     n_cases += 6
     roundtrip("T/roundtrip/Subscript-tuple-index",
               ("Subscript", V[0], ("Tuple", (V[1], V[2]))), {})
+    # index tuples of length one and zero, slices that end in omitted parts
+    roundtrip("T/roundtrip/Subscript-1-tuple-index",
+              ("Subscript", V[0], ("Tuple", (V[1],))), {})
+    roundtrip("T/roundtrip/Subscript-empty-tuple-index",
+              ("Subscript", V[0], ("Tuple", ())), {})
+    for name, sl in (("a::", (V[0], None, None)), ("::", (None, None, None)),
+                     (":", (None, None)), (":b:", (None, V[1], None)),
+                     ("a:b:", (V[0], V[1], None))):
+        roundtrip(f"T/roundtrip/Subscript-slice:{name}",
+                  ("Subscript", V[3], ("Slice", sl)), {"slice": name})
+    n_cases += 7
     roundtrip("T/roundtrip/Call-0-args", ("Call", V[0], ()), {})
     roundtrip("T/roundtrip/Call-2-args", ("Call", V[0], (V[1], V[2])), {})
     n_cases += 5
